@@ -27,8 +27,10 @@ out = ["## 8. Seeded changes from isolated sub-agents", "",
            len(rows), sum(r[4] == "superseded" for r in rows)),
        "removed the window they relied on: marked superseded). On the final tree: %d caught by the quick check of their own" % (
            sum(r[6].startswith("caught") for r in rows)),
-       "property, %d by the quick check of the neighbouring property whose domain they fall in (named in the row); %d of all" % (
-           sum(r[6].startswith("own check silent") for r in rows), sum(bool(r[5]) for r in rows)),
+       "property, %d by the quick check of the neighbouring property whose domain they fall in (named in the row), %d are not" % (
+           sum(r[6].startswith("own check silent") for r in rows), sum(r[6].startswith("NOT CAUGHT") for r in rows)),
+       "caught (the reason - an interleaving or process state no harness produces - is given in the row); %d of all" % (
+           sum(bool(r[5]) for r in rows)),
        "changes were missed by the version of the check that existed when they arrived and led to the strengthening named in the",
        "table (generator reach or an additional relation, never a loosened oracle). Three patches (C01/A, C01/E, C02/D) were rebased",
        "by the lead after fix 66deeec rewrote the lines they touch (the originals are kept as patch_original.diff).", "",
